@@ -60,7 +60,11 @@ RULE = ("basis level: 1-3 shells on 1-3 centres, every (K, M, l) in 1..4 x 1..4 
         "1/2), partner shells with the same K and another M half of the time, all K! permutations, all column "
         "slices, splits, column factors and norm_cont, additivity / homogeneity; setter level: shells rewritten in "
         "place through the coeffs / exps setters + assign_norm_cont(); exact model on both sides for a seeded "
-        "subset (l <= 2, K <= 3). Non-trivial: the rewritten input differs from the original and the compared "
+        "subset (l <= 2, K <= 3); stream wide-range (ERI only; quick 64 block + 3 basis cases): contracted shells spanning "
+        "tight and diffuse exponents (s 98304/65536 with 1/4..1/2, p 8192 with 1/2, d 2 with 1/32, f 4 with 1/32 or "
+        "5/16), quartets (pp|ff), (ss|ff), (ss|dd), (sp|df), the re-listed shell in each of the four positions, the "
+        "other shells listed ascending or descending, every permutation (quick, K = 3: the reversal + two), and bases [tight "
+        "shell, diffuse shell] through electron_repulsion_integral with every shell reversed. Non-trivial: the rewritten input differs from the original and the compared "
         "arrays are not identically zero; distinct by the hash of the exact input")
 ASSUMPTIONS = [
     "floating-point rounding of the NumPy pipeline is not modelled: 'unchanged' is decided with tolerance 1e-9 "
@@ -398,9 +402,9 @@ def eval_basis_case(model, case):
     mods = MODULES()
     rtypes = "+".join(sorted(set(rw["type"] for rw in rws)))
     types = "".join("s" if s.sph else "c" for s in basis)
-    tag = "basis %s n=%d %s%s" % (rtypes, len(basis), "mixed" if len(set(types)) > 1 else ("sph" if types[0] == "s"
-                                                                                           else "cart"),
-                                  " T" if Tq is not None else "")
+    tag = "basis %s n=%d %s%s%s" % (rtypes, len(basis), "mixed" if len(set(types)) > 1 else ("sph" if types[0] == "s"
+                                                                                             else "cart"),
+                                    " T" if Tq is not None else "", " wide-range" if case.get("stream") == "wide" else "")
     stats = {"mod:" + n: 1 for n in case["mods"]}
     for rw in rws:
         s = basis[rw["shell"]]
@@ -565,7 +569,7 @@ def eval_block_case(model, case):
     a = _aux_np(aux)
     s = xs[pos]
     k, m = len(s.exps), len(s.coeffs[0])
-    tag = "block %s %s" % (cls, rw["type"])
+    tag = "block %s %s%s" % (cls, rw["type"], " wide-range" if case.get("stream") == "wide" else "")
     stats = {"block K=%d" % k: 1, "block M=%d" % m: 1, "block l=%d" % s.l: 1}
 
     def blk(shells):
@@ -944,6 +948,76 @@ def make_basis_case(rng, basis, rws, tier, i, with_T, model):
             "mods": mods, "model": use_model}
 
 
+def wide_range_cases(rng, tier):
+    """ERI with CONTRACTED shells whose primitives span tight and diffuse exponents (core s 98304 / 65536 with 1/4,
+    p 8192 with 1/2, d 2 with 1/32, f 4 with 1/32): the primitives of one shell of the quartet are re-listed (every
+    permutation) while the other shells are listed ascending (diffuse -> tight) or descending (as in basis-set files),
+    the rewritten shell in each of the four positions; and whole bases [tight shell, diffuse shell] through
+    electron_repulsion_integral with every shell re-listed.  Which of the equivalent orientations of a quartet is
+    evaluated may depend on the VALUES of the exponents only, never on where they are listed (seeded change C13-mutc
+    chose it from exps[0] / exps[-1]: results off by up to 1e2 for one listing and exact for another)."""
+    quick = tier == "quick"
+    at1 = [Fraction(0)] * 3
+    at2 = [Fraction(1, 4), Fraction(-1, 8), Fraction(1, 2)]
+
+    def sh(l, c, exps, coeffs, sph=False):
+        return XShell(l, list(c), [F(e) for e in exps], [[F(x)] for x in coeffs], sph)
+
+    S2 = lambda c: sh(0, c, [98304, Fraction(1, 4)], [Fraction(1, 4), 1])
+    S3 = lambda c: sh(0, c, [65536, 1024, Fraction(1, 2)], [Fraction(1, 8), Fraction(1, 2), 1])
+    P2 = lambda c: sh(1, c, [8192, Fraction(1, 2)], [Fraction(1, 4), 1])
+    D2 = lambda c: sh(2, c, [2, Fraction(1, 32)], [Fraction(1, 2), 1])
+    F1 = lambda c: sh(3, c, [Fraction(5, 16)], [1])
+    F2 = lambda c: sh(3, c, [4, Fraction(1, 32)], [Fraction(1, 2), 1])
+    templates = [[P2(at1), P2(at1), F2(at2), F2(at2)],
+                 [S2(at1), S2(at1), F1(at2), F1(at2)],
+                 [S3(at1), S2(at1), D2(at2), D2(at2)],
+                 [S2(at1), P2(at1), D2(at1), F2(at1)]]
+    if not quick:
+        templates += [[F2(at2), F2(at2), P2(at1), P2(at1)], [S3(at1), D2(at2), S3(at1), D2(at2)],
+                      [S2(at1), S3(at1), F2(at2), D2(at2)]]
+
+    def listed(x, how):
+        k = len(x.exps)
+        asc = sorted(range(k), key=lambda i: x.exps[i])
+        return copy_shell(x, exps=[x.exps[i] for i in (asc if how == "asc" else asc[::-1])],
+                          coeffs=[x.coeffs[i] for i in (asc if how == "asc" else asc[::-1])])
+
+    cases = []
+    for ti, tpl in enumerate(templates):
+        for pos in range(4):
+            if len(tpl[pos].exps) < 2:
+                continue
+            for others in ("asc", "desc"):
+                for mine in ("desc", "asc"):
+                    xs = [listed(x, mine if i == pos else others) for i, x in enumerate(tpl)]
+                    k = len(xs[pos].exps)
+                    perms = [list(p) for p in itertools.permutations(range(k)) if list(p) != list(range(k))]
+                    if quick and len(perms) > 3:
+                        perms = [perms[-1]] + rng.sample(perms[:-1], 2)       # the reversal and two more
+                    small = sum(x.l for x in xs) <= 4 and max(len(x.exps) for x in xs) <= 3
+                    aux = gen_aux(rng, xs)
+                    for n, p in enumerate(perms):
+                        cases.append({"kind": "block", "cls": "eri", "stream": "wide", "shells": [x.to_json() for x in xs],
+                                      "pos": pos, "rw": {"type": "perm", "perm": p}, "aux": aux,
+                                      "model": bool(small and n == 0 and others == "asc" and pos == 0)})
+    # whole bases through the public function: file order -> every shell ascending (and one shell only)
+    bases = [[S2(at1), F1(at2)], [P2(at1), F2(at2)], [S2(at1), D2(at1)]]
+    if not quick:
+        bases += [[F2(at2), P2(at1)], [S3(at1), sh(3, at1, [Fraction(5, 16)], [1], True)], [S2(at1), P2(at1), D2(at2)]]
+    for bi, basis in enumerate(bases):
+        basis = [listed(x, "desc") for x in basis]
+        allrw = [{"type": "perm", "shell": i, "perm": list(range(len(x.exps)))[::-1]} for i, x in enumerate(basis)
+                 if len(x.exps) > 1]
+        for rws in ([allrw] if quick else [allrw] + [[r] for r in allrw if len(allrw) > 1]):
+            nf = sum(x.nfun() for x in basis)
+            cases.append({"kind": "basis", "stream": "wide", "basis": [x.to_json() for x in basis], "rws": rws,
+                          "aux": gen_aux(rng, basis), "T": None,
+                          "Cm": [[str(Fraction(rng.randint(-4, 4), 4))] for _ in range(nf)],
+                          "mods": ["eri_chem" if bi % 2 == 0 else "eri_phys"], "model": False})
+    return cases
+
+
 def gen_cases(tier, seed):
     rng = random.Random(1000003 * seed + 13)
     quick = tier == "quick"
@@ -1052,6 +1126,8 @@ def gen_cases(tier, seed):
                 rw.pop("shell")
                 cases.append({"kind": "setter", "shells": [s.to_json(), other.to_json()], "rw": rw,
                               "aux": gen_aux(rng, [s, other])})
+    # ---------------- ERI with contractions spanning tight and diffuse exponents (own PRNG) ----------------
+    cases += wide_range_cases(random.Random(1000003 * seed + 1313), tier)
     return cases
 
 
